@@ -119,4 +119,14 @@ ENTRIES = {
             "elements the concrete call accepts.",
             "Domains of 4 and 2 elements; the body is a function of all parameters in which positions are not interchangeable.",
             "DESIGN.md section 3 C12"),
+    "C10": ("exploration",
+            "exhaustive enumeration of query shapes x every number k of results pulled, event log of harness-supplied generators, items and predicates",
+            "Construction: every distinct query of the C01 enumeration with <=2 leaves (feature atoms, flatten, nested sub-queries, "
+            "one-shot iterables as literal operands, an/the/Exactly) and every rule tree with <=4 branches is built over logging "
+            "generator domains and logging items; the event log must be empty, and calling evaluate() without iterating must stay "
+            "silent. Consumption: for 85 query shapes over one-shot generator domains and EVERY k up to the number of results, "
+            "the k results must be a prefix of a fresh full run and some selected variable's generator must not have been read "
+            "past the last element occurring in those k results (loop-order agnostic laziness).",
+            "All observation points are harness objects (no hook in krrood). Queries with Python bool constants are left to C01.",
+            "DESIGN.md section 3 C10"),
 }
